@@ -90,6 +90,8 @@ class FileCache:
         self.files = {}
         self.small_order = []
         self.keep_small = keep_small
+        self.big_order = []  # big files outside the fixed menu (seed != 1): only the most recent few are kept
+        self.keep_big = 3
 
     def get(self, spec):
         uid = spec_uid(spec)
@@ -109,6 +111,10 @@ class FileCache:
             self.small_order.append(uid)
             while len(self.small_order) > self.keep_small:
                 self._drop(self.small_order.pop(0))
+        elif spec["seed"] != 1:
+            self.big_order.append(uid)
+            while len(self.big_order) > self.keep_big:
+                self._drop(self.big_order.pop(0))
         return cf
 
     def _drop(self, uid):
